@@ -528,7 +528,7 @@ def _(c):
 
     c.call_hints["_index_of"] = hint_index_of
 
-    # ---- loops (ordinals in source order): 1 validation over [self] | clones, 2 children of n, 3 clones, 4 re-parenting
+    # ---- loops (ordinals in source order): 1 validation over [self] | clones, 2 children of n, 3+4 nested-clone check (with_clones only: not reached here), 5 clones, 6 re-parenting
     def no_clash_for(x, n, upto=None):
         h0 = x.h0
         i, t = L.fresh("i", L.I), L.fresh("t", L.I)
@@ -541,7 +541,7 @@ def _(c):
     c.loop(1).exit_facts = [lambda x: no_clash_for(x, x.a.self)]
     c.loop(2).invariant = lambda x: And(x.v.n == x.a.self, no_clash_for(x, x.a.self, upto=x.k))
     c.loop(2).modifies = ()
-    c.loop(3).invariant = lambda x: z3.BoolVal(True)
+    c.loop(5).invariant = lambda x: z3.BoolVal(True)
 
     def inv_reparent(x):
         h0, h, s, T = x.h0, x.h, x.a.self, x.T
@@ -550,8 +550,8 @@ def _(c):
         return And(ForAll([o], h._parent(o) == If(And(h0.mem(T, o), h0._parent(o) == s, h0.pos(o) < x.k), op, h0._parent(o)), patterns=[h._parent(o)]),
                    Implies(h0._children(s) != LNONE, x.it.z == h0._children(s)))
 
-    c.loop(4).invariant = inv_reparent
-    c.loop(4).modifies = ("_parent",)
+    c.loop(6).invariant = inv_reparent
+    c.loop(6).modifies = ("_parent",)
 
 
 # ------------------------------------------------------------------ shortcuts (C04): instances of add_child's contract
